@@ -29,7 +29,7 @@ def build_base(gs, nq, two_qubit="ps"):
     return c
 
 
-def logical_probs(circ, in_state):
+def logical_probs(circ, in_state, normalise=True):
     """noiseless outcome frequencies over the dual-rail outputs of the user modes, heralds satisfied, conditioned on a
     logical output; computed from U_full with the harness's own permanent (no Sampler, no Simulator)"""
     import lightworks as lw
@@ -54,6 +54,8 @@ def logical_probs(circ, in_state):
         p = abs(ev.amplitude(U, fin, full(occ, hout))) ** 2
         res[lw.State(occ)] = p
     tot = sum(res.values())
+    if not normalise:
+        return res
     return {s: p / tot for s, p in res.items()} if tot > 0 else res
 
 
@@ -77,9 +79,10 @@ def analyzer_probs(circ, in_state):
 class Experiment:
     """records what the tomography asks for and answers with exact frequencies, in a shuffled dictionary order"""
 
-    def __init__(self, seed, source="permanent"):
+    def __init__(self, seed, source="permanent", raw=False):
         self.rng = random.Random(seed)
         self.calls = []
+        self.raw = raw              # True: un-normalised weights (the success probability of post-selected / heralded gates stays in), as counts would be
         self.source = source        # "permanent": the harness's own permanent; "analyzer": the library's Analyzer (the documented way to get exact frequencies)
 
     def state(self, circuits):
@@ -91,7 +94,7 @@ class Experiment:
         return [self._answer(c, list(s)) for c, s in zip(circuits, inputs)]
 
     def _answer(self, c, ins):
-        d = analyzer_probs(c, ins) if self.source == "analyzer" else logical_probs(c, ins)
+        d = analyzer_probs(c, ins) if self.source == "analyzer" else logical_probs(c, ins, normalise=not self.raw)
         items = list(d.items())
         self.rng.shuffle(items)
         return dict(items)
@@ -367,6 +370,36 @@ def _continuous_case(nq, k, what):
     s0 = snap(base)
     if np.abs(Jref - Jx).max() > 1e-9:
         f.append(("choi_reference", "choi_from_unitary(V) differs from the Choi matrix the tomography measures by %.3g (%s)" % (np.abs(Jref - Jx).max(), desc)))
+    if "li" in what and k % 4 in (1, 2):
+        # histories on ONE tomography object: a Parameter of the base circuit set AFTER the object was created (k % 4 == 1), a second
+        # process() after the base circuit was extended (k % 4 == 2) - the result is always that of the circuit as it is NOW
+        par = lw.Parameter(0.0)
+        base.ps(0, par)                          # phase on the |0> rail of qubit 0: diag(e^{ip}, 1) on that qubit, the identity while p = 0
+        th1 = LIh = None
+        th1 = tm.LIProcessTomography(nq, base, Experiment(k, raw=(k % 8 == 1)).process)
+        gfh = tm.GateFidelity(nq, base, Experiment(k).process)
+        if k % 4 == 2:
+            th1.process()
+            gfh.process(V)
+        pnew = 0.7 + 0.1 * (k % 5)
+        par.set(pnew)
+        Ph = _embed(np.diag([np.exp(1j * pnew), 1.0]), [0], nq)
+        Vn = Ph @ V
+        if k % 4 == 2:
+            W2 = _haar(rng, 2)
+            base.add(lw.Unitary(W2.copy()), 2 * (nq - 1))
+            Vn = _embed(W2, [nq - 1], nq) @ Vn
+        Jn = th1.process()
+        if np.abs(Jn - choi_def(Vn)).max() > 1e-7:
+            f.append(("li_choi", "one LIProcessTomography object, base circuit %s after the object was created: the Choi matrix differs from that of the CURRENT "
+                                 "circuit by %.3g (%s)" % ("re-parameterised" if k % 4 == 1 else "extended between two process() calls", np.abs(Jn - choi_def(Vn)).max(), desc)))
+        gotf = gfh.process(Vn)
+        if abs(gotf - 1) > 1e-7:
+            f.append(("gate_fidelity", "one GateFidelity object, base circuit changed after it was created: fidelity against the current unitary is %.8f (%s)" % (gotf, desc)))
+        V = Vn
+        Jx = choi_def(V)
+        Jref = tm.choi_from_unitary(V)
+        s0 = snap(base)
     if "li" in what:
         t = tm.LIProcessTomography(nq, base, Experiment(k).process)
         J = t.process()
@@ -488,8 +521,20 @@ def _continuous_state_case(nq, k):
     psi = V[:, 0]
     rx = np.outer(psi, psi.conj())
     s0 = snap(base)
-    for src in ("permanent", "analyzer"):
-        ex = Experiment(k, src)
+    if k % 5 == 2 and k % 4 != 3:
+        # ONE StateTomography object used twice, the base circuit extended in between: the second answer is the state prepared NOW
+        tt = tm.StateTomography(nq, base, Experiment(k).state)
+        tt.process()
+        local_layer()
+        psi = V[:, 0]
+        rx = np.outer(psi, psi.conj())
+        rho2 = tt.process()
+        if np.abs(rho2 - rx).max() > 1e-8:
+            f.append(("rho", "one StateTomography object, base circuit extended between two process() calls: the second density matrix differs from the "
+                             "state prepared now by %.3g (%s)" % (np.abs(rho2 - rx).max(), desc)))
+        s0 = snap(base)
+    for src in ("permanent", "analyzer", "raw"):
+        ex = Experiment(k, "permanent" if src == "raw" else src, raw=(src == "raw"))
         t = tm.StateTomography(nq, base, ex.state)
         rho = t.process()
         if src == "permanent":
